@@ -58,7 +58,10 @@ def jobs_for(tier):
 def record(tier):
     """Record herd traces (cached per repository tree hash). Returns list of shard files and the job list."""
     h = C.tree_hash()
-    d = C.cache_dir(h, "herd_%s_%d" % (tier, C.seed()))
+    import hashlib
+    rec_src = open(os.path.join(os.path.dirname(__file__), "herd_rec.py"), "rb").read()
+    jh = hashlib.sha256(json.dumps(jobs_for(tier), sort_keys=True).encode() + rec_src).hexdigest()[:12]
+    d = C.cache_dir(h, "herd_%s_%d_%s" % (tier, C.seed(), jh))
     done = os.path.join(d, "DONE")
     with C.locked(os.path.join(d, "rec")):
         if not os.path.exists(done):
